@@ -5,6 +5,7 @@ use crate::engine_common::*;
 use crate::proto::hex;
 use crate::rng::Rng;
 use kolibrie::execute_query::execute_sparql_query;
+use kolibrie::sparql_database::SparqlDatabase;
 use std::cmp::Ordering;
 
 pub struct C01;
@@ -47,9 +48,37 @@ fn table(rows: &[Vec<String>]) -> String {
     format!("{{{}}}", out.join(";"))
 }
 
+/// The database the query runs on.  For one request in three it has a *query history*: half of the data is stored, two
+/// SELECTs run (over the default graph and over GRAPH ?g: whatever a query caches - statistics, graph lists, plans - is
+/// now warm), then the rest of the data arrives through the storage API, graphs included.  The answer to the request's
+/// query depends on the stored quads only.
+fn build_db_with_query_history(db_ast: &Db, text: &str) -> SparqlDatabase {
+    if crate::proto::fnv(text) % 3 != 0 || db_ast.quads.len() < 2 {
+        return build_db(db_ast);
+    }
+    let half = db_ast.quads.len() / 2;
+    let first = Db { quads: db_ast.quads[..half].to_vec(), graphs: vec![] };
+    let mut db = build_db(&first);
+    let _ = execute_sparql_query("SELECT * WHERE { ?s ?p ?o }", &mut db);
+    let _ = execute_sparql_query("SELECT ?g ?s WHERE { GRAPH ?g { ?s ?p ?o } }", &mut db);
+    for g in &db_ast.graphs {
+        let id = db.dictionary.write().unwrap().encode(g);
+        db.dataset_index.create_graph(shared::dataset_index::GraphId::Named(id));
+    }
+    for (s, p, o, g) in &db_ast.quads[half..] {
+        match g {
+            None => db.add_triple_parts(s, p, o),
+            Some(g) => {
+                db.add_quad_parts(s, p, o, g);
+            }
+        }
+    }
+    db
+}
+
 pub fn run_select(db_ast: &Db, q: &Select) -> String {
     let text = sparql_select(q);
-    let mut db = build_db(db_ast);
+    let mut db = build_db_with_query_history(db_ast, &text);
     let rows = match execute_sparql_query(&text, &mut db) {
         Ok(r) => r,
         Err(e) => return format!("error:{}", hex(&e.chars().take(120).collect::<String>())),
